@@ -154,6 +154,74 @@ def _property_names(tree):
     return out
 
 
+def lower_attrs_these(tree):
+    """`@attr.s(these={"_cause": attr.ib()})` declares the fields in the decorator instead of the class body; for the analysis the
+    two spellings are one: the entries become assignments at the top of the class body (attrs ignores attr.ib() members of the
+    body when `these` is given, so those are dropped)."""
+    n_done = 0
+    for c in ast.walk(tree):
+        if not isinstance(c, ast.ClassDef):
+            continue
+        for d in c.decorator_list:
+            if not (isinstance(d, ast.Call) and norm(d.func) in ("attr.s", "attr.attrs", "attr.define", "attr.frozen", "attr.mutable")):
+                continue
+            these = [k for k in d.keywords if k.arg == "these"]
+            if not these or not isinstance(these[0].value, ast.Dict):
+                continue
+            items = list(zip(these[0].value.keys, these[0].value.values))
+            if not all(isinstance(k, ast.Constant) and isinstance(k.value, str) for k, _v in items):
+                continue
+            d.keywords = [k for k in d.keywords if k.arg != "these"]
+            body = [st for st in c.body if not (isinstance(st, ast.Assign) and isinstance(st.value, ast.Call)
+                                                and norm(st.value.func) in ("attr.ib", "attr.attrib", "attr.field"))]
+            new = []
+            for k, v in items:
+                a = ast.Assign(targets=[ast.Name(id=k.value, ctx=ast.Store())], value=v)
+                ast.copy_location(a, v)
+                ast.copy_location(a.targets[0], v)
+                ast.fix_missing_locations(a)
+                new.append(a)
+            doc = body[:1] if body and isinstance(body[0], ast.Expr) and isinstance(body[0].value, ast.Constant) and isinstance(body[0].value.value, str) else []
+            c.body = doc + new + body[len(doc):]
+            n_done += 1
+    return n_done
+
+
+def split_bound_method_aliases(tree):
+    """`_is_full_date = re.compile(r"...").fullmatch` at module level, used only as `_is_full_date(x)`: for the analysis this is
+    `_is_full_date__obj = re.compile(r"...")` and `_is_full_date__obj.fullmatch(x)` -- the object is made once, at import, either way."""
+    n_done = 0
+    for st in list(tree.body):
+        if not (isinstance(st, ast.Assign) and len(st.targets) == 1 and isinstance(st.targets[0], ast.Name)
+                and isinstance(st.value, ast.Attribute) and isinstance(st.value.value, ast.Call)):
+            continue
+        x, meth = st.targets[0].id, st.value.attr
+        names = [n for n in ast.walk(tree) if isinstance(n, ast.Name) and n.id == x]
+        if sum(1 for n in names if isinstance(n.ctx, (ast.Store, ast.Del))) != 1:
+            continue
+        if any(isinstance(n, (ast.Global, ast.Nonlocal)) and x in n.names for n in ast.walk(tree)):
+            continue
+        if any(isinstance(a, ast.arg) and a.arg == x for a in ast.walk(tree)):
+            continue
+        callee_ids = {id(n.func) for n in ast.walk(tree) if isinstance(n, ast.Call)}
+        loads = [n for n in names if isinstance(n.ctx, ast.Load)]
+        if not loads or not all(id(n) in callee_ids for n in loads):
+            continue
+        obj = x + "__obj"
+        st.targets[0].id = obj
+        st.value = st.value.value
+        for n in ast.walk(tree):
+            if isinstance(n, ast.Call) and isinstance(n.func, ast.Name) and n.func.id == x:
+                new = ast.Attribute(value=ast.Name(id=obj, ctx=ast.Load()), attr=meth, ctx=ast.Load())
+                ast.copy_location(new, n.func)
+                ast.copy_location(new.value, n.func)
+                n.func = new
+        n_done += 1
+    if n_done:
+        ast.fix_missing_locations(tree)
+    return n_done
+
+
 def lower_match(tree):
     """Normalisation before any analysis: a `match` statement whose patterns are literals, singletons, class patterns without
     sub-patterns (`case list():`), captures, wildcards and alternatives of these is rewritten into the if/elif chain it abbreviates
@@ -320,6 +388,8 @@ class Mod:
         self.src = src
         self.tree = ast.parse(src, filename=path)
         self.match_lowered = lower_match(self.tree)
+        self.attrs_these_lowered = lower_attrs_these(self.tree)
+        self.method_aliases_split = split_bound_method_aliases(self.tree)
         self.aliases_inlined = inline_object_aliases(self.tree)
         self.top = {}       # name -> Func | Cls | ast.expr (last module-level binding)
         self.bindings = {}  # name -> list of (value expr | Func | Cls, stmt) all module-level bindings incl. in if/try
@@ -657,7 +727,8 @@ class Draft:
         self.var = None             # "Draft3Validator"
         self.call = None            # ast.Call of create(...)
         self.table = {}             # keyword -> Func
-        self.table_exprs = {}       # keyword -> ast.expr
+        self.table_exprs = {}       # keyword -> ast.expr (or the Func itself when the table was evaluated)
+        self.table_evaluated = False
         self.type_checker_expr = None
         self.types = {}             # type name -> Func (def or lambda)
         self.id_of = None           # Func (def or lambda)
@@ -758,6 +829,28 @@ class Tables:
                 return items
         raise AnalysisError("%s is not a dict literal" % what)
 
+    def _evaluated_table(self, mod, e, what, err):
+        """A keyword table the package *computes* (`_keyword_table(Draft4Validator.VALIDATORS, {...})`, a loop, a merge helper):
+        the expression is evaluated by the definitional interpreter (sa/tokeval.py) -- module-level bindings once, as at import --
+        and must come out as a dict from keyword names to package functions.  Anything else stays the analysis error it was."""
+        from .tokeval import Ev, FuncRef, Undecided, PyRaise, _ModScope, PkgData
+        ev = self.__dict__.get("_table_ev")
+        if ev is None:
+            ev = self._table_ev = Ev(self.prog, fuel=400000)
+            ev.ext["pkgutil"] = PkgData(self.prog)
+        try:
+            val = ev.expr(e, {}, _ModScope(mod))
+        except (Undecided, PyRaise, RecursionError) as x:
+            raise AnalysisError("%s (and it could not be evaluated: %s)" % (err, x))
+        if not isinstance(val, dict) or not val:
+            raise AnalysisError("%s (and it evaluates to %s)" % (err, type(val).__name__))
+        out = []
+        for k, f in val.items():
+            if not isinstance(k, str) or not isinstance(f, FuncRef) or not isinstance(f.func, Func) or f.closure:
+                raise AnalysisError("%s (and it evaluates to a table whose entry %r is not a package function)" % (err, k))
+            out.append((ast.Constant(k), f.func))
+        return out
+
     def _lambda_func(self, mod, node, qual):
         key = (mod.name, node.lineno, node.col_offset)
         if key not in self.lambdas:
@@ -786,11 +879,18 @@ class Tables:
                 d.version = version
                 # keyword table
                 v = args.get("validators")
-                for k, fx in self._dict_items(m, v, "%s: validators=" % name):
+                try:
+                    items = self._dict_items(m, v, "%s: validators=" % name)
+                except AnalysisError as e:
+                    items = self._evaluated_table(m, v, "%s: validators=" % name, e)
+                    d.table_evaluated = True
+                for k, fx in items:
                     ks = const_str(k)
                     if ks is None:
                         raise AnalysisError("%s: non-constant keyword key %s" % (name, norm(k)))
-                    if isinstance(fx, ast.Lambda):
+                    if isinstance(fx, Func):
+                        fn = fx
+                    elif isinstance(fx, ast.Lambda):
                         fn = self._lambda_func(m, fx, "validators.<lambda %s.%s>" % (version, ks))
                     else:
                         fn = prog.resolve_expr(m, fx)
@@ -920,8 +1020,34 @@ class Tables:
             if not (isinstance(r, tuple) and r[0] == "expr" and r[1] is tmod):
                 raise AnalysisError("%s: type_checker %s does not resolve into _types" % (d.var, norm(e)))
             # evaluate by name so aliases (draft7 = draft6) work
-            d.types = ev(r[2])
+            try:
+                d.types = ev(r[2])
+            except AnalysisError as err:
+                d.types = self._evaluated_types(tmod, r[2], err)
             d.type_checker_name = norm(e)
+
+    def _evaluated_types(self, tmod, e, err):
+        """A type checker the package computes in a way the loader does not read (a loop over names, a helper): evaluated by
+        sa/tokeval.py; accepted when it comes out as a TypeChecker whose map sends names to plain package functions (no closure,
+        no defaulted parameters carrying per-entry state).  Anything else stays the analysis error it was."""
+        from .tokeval import Ev, FuncRef, Obj, Undecided, PyRaise, _ModScope
+        ev = self.__dict__.get("_types_ev")
+        if ev is None:
+            ev = self._types_ev = Ev(self.prog, fuel=200000)
+        try:
+            val = ev.expr(e, {}, _ModScope(tmod))
+        except (Undecided, PyRaise, RecursionError) as x:
+            raise AnalysisError("%s (and it could not be evaluated: %s)" % (err, x))
+        tbl = val.attrs.get("_type_checkers") if isinstance(val, Obj) else None
+        if not isinstance(tbl, dict) or not tbl:
+            raise AnalysisError("%s (and it does not evaluate to a TypeChecker with a map)" % err)
+        out = {}
+        for k, f in tbl.items():
+            if not isinstance(k, str) or not isinstance(f, FuncRef) or not isinstance(f.func, Func) or f.closure or \
+                    f.func.node.args.defaults or any(x is not None for x in f.func.node.args.kw_defaults):
+                raise AnalysisError("%s (and the evaluated map's entry %r is not a plain package function)" % (err, k))
+            out[k] = f.func
+        return out
 
     def _type_fn(self, tmod, v, tname):
         if isinstance(v, ast.Lambda):
